@@ -113,7 +113,7 @@ package endorse
 //@   modifies snpImage, tdxImage, pbsrc, pbok
 //@   assigns[C15] nothing
 //@   ensures[C06] err == nil ==> result != nil && ecOf(ctx) != nil && val(result.Digest) == sha384(val(ecOf(ctx).Image)) && len(result.Digest) == 48
-//@   ensures[C06] err == nil ==> result.ClSpec == ecOf(ctx).ClSpec && val(result.Commit) == val(ecOf(ctx).Commit)
+//@   ensures[C06,C03] err == nil ==> result.ClSpec == ecOf(ctx).ClSpec && val(result.Commit) == val(ecOf(ctx).Commit)
 //@   ensures[C06] err == nil ==> (ecOf(ctx).SevSnp != nil) == (result.SevSnp != nil) && (ecOf(ctx).Tdx != nil) == (result.Tdx != nil)
 //@   ensures[C06] err == nil && ecOf(ctx).SevSnp != nil ==> snpImage == val(ecOf(ctx).Image) && val(result.SevSnp.SvsmMeasurement) == val(ecOf(ctx).SvsmSnpMeasurement)
 //@   ensures[C06] err == nil && ecOf(ctx).Tdx != nil ==> tdxImage == val(ecOf(ctx).Image)
